@@ -517,6 +517,9 @@ type history struct {
 	junkErr bool // failing polls return a number above s0 together with the error
 	script  []wtest.Poll
 	tail    wtest.Poll
+	// cancel > 0: the caller's context is cancelled that long after the call started, while the send is still
+	// waiting for the confirmation. A cancelled wait may end early, but it has confirmed nothing.
+	cancel time.Duration
 }
 
 type outcome struct {
@@ -574,6 +577,9 @@ func drawHistory(c *core.Ctx, i int) history {
 		h.script = []wtest.Poll{same, {Seqno: h.s0 / 2}, {Seqno: 0}}
 		h.tail = same
 	}
+	if (h.kind == histNever || h.kind == histLower) && c.Intn(l("cancel"), 3) == 0 {
+		h.cancel = h.wait * time.Duration(c.Range(l("cancel.pct"), 5, 80)) / 100
+	}
 	return h
 }
 
@@ -581,6 +587,9 @@ func (h history) describe() string {
 	api := "SendV2"
 	if h.raw {
 		api = "RawSendV2"
+	}
+	if h.cancel > 0 {
+		api += fmt.Sprintf(" (context cancelled after %v)", h.cancel)
 	}
 	return fmt.Sprintf("%v %s seqno %d wait %v: %s (k=%d, +%d, junk=%v)", h.vp.Ref, api, h.s0, h.wait, histNames[h.kind], h.k, h.delta, h.junkErr)
 }
@@ -599,6 +608,13 @@ func (h history) run() outcome {
 			return fmt.Errorf("HARNESS: wallet.New: %v", err)
 		}
 		msgs := transfers(1, uint64(h.s0))
+		ctx := context.Background()
+		if h.cancel > 0 {
+			var stop context.CancelFunc
+			ctx, stop = context.WithCancel(ctx)
+			defer stop()
+			defer time.AfterFunc(h.cancel, stop).Stop()
+		}
 		start := time.Now()
 		if h.raw {
 			var raws []wallet.RawMessage
@@ -613,9 +629,9 @@ func (h history) run() outcome {
 				}
 				raws = append(raws, wallet.RawMessage{Message: cell, Mode: mode})
 			}
-			_, err = w.RawSendV2(context.Background(), h.s0, time.Now().Add(time.Minute), raws, nil, h.wait)
+			_, err = w.RawSendV2(ctx, h.s0, time.Now().Add(time.Minute), raws, nil, h.wait)
 		} else {
-			_, err = w.SendV2(context.Background(), h.wait, msgs...)
+			_, err = w.SendV2(ctx, h.wait, msgs...)
 		}
 		out.done = time.Now()
 		out.elapsed = out.done.Sub(start)
@@ -686,7 +702,10 @@ func (h history) judge(c *core.Ctx, o outcome) error {
 			return fmt.Errorf("%s: no poll (of %d) reported a higher seqno without error, yet the send reported success after %v (junk number next to an error: %v)",
 				h.describe(), len(o.polls), o.elapsed, junkAbove)
 		}
-		if o.elapsed < h.wait {
+		if h.cancel > 0 {
+			c.Class("not confirmed, context cancelled during the wait")
+		}
+		if o.elapsed < h.wait && (h.cancel == 0 || o.elapsed < h.cancel) {
 			return fmt.Errorf("%s: gave up after %v, before the waiting time %v", h.describe(), o.elapsed, h.wait)
 		}
 		if o.elapsed > h.wait+10*time.Second {
